@@ -56,11 +56,23 @@ def main(argv=None) -> int:
             else:
                 new.append(fd)
         audit = None
-        if args.tier == "thorough" and hasattr(mod, "audit") and replay is None and not args.repo:
+        if args.tier == "thorough" and replay is None and not args.repo:
+            # the audits never decide the exit code: it is decided by the rules on the real tree only
+            audit = {}
             try:
-                audit = mod.audit(ctx)
-            except Exception as ex:  # the audit never decides the exit code
-                audit = {"error": f"{type(ex).__name__}: {ex}"}
+                from .selftest import run_audit
+                audit["sensitivity"] = run_audit([args.prop])
+            except Exception as ex:
+                audit["sensitivity"] = {"error": f"{type(ex).__name__}: {ex}"}
+            if hasattr(mod, "audit"):
+                try:
+                    audit["deep"] = mod.audit(ctx)
+                except Exception as ex:
+                    audit["deep"] = {"error": f"{type(ex).__name__}: {ex}"}
+            sa = audit.get("sensitivity", {})
+            if "mutants_total" in sa:
+                print(f"sensitivity audit: mutants killed {sa['mutants_killed']}/{sa['mutants_total']}, equivalents silent "
+                      f"{sa['equivalents_silent']}/{sa['equivalents_total']}, skipped {sa['skipped']} ({sa['wall_s']}s)")
         if args.json:
             print(json.dumps([dict(fd.key(), file=fd.file, line=fd.line, message=fd.message, known=bool(report.match_known(fd, known)))
                               for fd in findings]))
